@@ -402,6 +402,9 @@ type LFile struct {
 	Docs []int
 	// AsList: the documents are wrapped in one `v1 List` object (as `kubectl get -o yaml` writes them)
 	AsList bool `json:",omitempty"`
+	// Style of a multi-document YAML stream: 0 plain; 1 CRLF line ends; 2 empty documents and comment-only documents
+	// between the real ones; 3 a leading and a trailing document separator; 4 all of these
+	Style int `json:",omitempty"`
 }
 
 var scratchRoot = func() string {
@@ -468,7 +471,18 @@ func WriteDocs(dir string, docs []Doc, l *Layout) {
 			for _, di := range f.Docs {
 				parts = append(parts, string(docs[di].YAML()))
 			}
-			content = []byte(strings.Join(parts, "---\n"))
+			sep := "---\n"
+			if f.Style == 2 || f.Style == 4 {
+				sep = "---\n---\n# a document that holds only this comment\n\n---\n"
+			}
+			text := strings.Join(parts, sep)
+			if f.Style == 3 || f.Style == 4 {
+				text = "---\n# first\n" + text + "---\n"
+			}
+			if f.Style == 1 || f.Style == 4 {
+				text = strings.ReplaceAll(text, "\n", "\r\n")
+			}
+			content = []byte(text)
 		}
 		writeFile(filepath.Join(dir, f.Path), content)
 	}
